@@ -562,15 +562,15 @@ func checkpointPruneAtomic(w *World, r *Report) {
 		return
 	}
 	li := ComputeLocks(w, acctScope)
-	saves := f.calls(cn("accountant", "*fundsMemMap", "saveToStorage"))
-	dels := f.calls(nDeleteVertex)
-	for _, c := range append(append([]ssa.CallInstruction{}, saves...), dels...) {
-		held := li.At(c)
-		r.check(held.Has(abMux, "W"), "checkpoint-prune-atomic", "truncate/"+shortCallee(c), lineOf(w, c), "runs under the exclusive ledger lock", "lockset "+held.String())
+	saves := deepCalls(f.fn, byName(nSaveFunds), deepDepth)
+	dels := deepCalls(f.fn, byName(nDeleteVertex), deepDepth)
+	for _, d := range append(append([]dcall{}, saves...), dels...) {
+		held := li.At(d.c)
+		r.check(held.Has(abMux, "W"), "checkpoint-prune-atomic", "truncate/"+shortCallee(d.c), lineOf(w, d.c), "runs under the exclusive ledger lock", "lockset "+held.String())
 	}
 	for _, sv := range saves {
 		unlocks := 0
-		walkFrom(sv, nil, nil, func(in ssa.Instruction) bool {
+		dw := newDeepWalk(func(in ssa.Instruction, _ *frame) bool {
 			if c, ok := in.(*ssa.Call); ok { // deferred unlocks run at return: not in between
 				if op, _, id, ok := lockOp(c); ok && op == "unlock" && id == abMux {
 					unlocks++
@@ -578,6 +578,8 @@ func checkpointPruneAtomic(w *World, r *Report) {
 			}
 			return false
 		})
-		r.check(unlocks == 0, "checkpoint-prune-atomic", "truncate/no-unlock-after-checkpoint", lineOf(w, sv), "no unlock of the ledger lock between the checkpoint write and the end of the truncation", fmt.Sprintf("%d unlock calls reachable after the checkpoint write", unlocks))
+		si := sv.c.(ssa.Instruction)
+		dw.run(frameFor(f.fn, sv.chain), si.Block(), indexIn(si.Block(), si)+1)
+		r.check(unlocks == 0, "checkpoint-prune-atomic", "truncate/no-unlock-after-checkpoint", lineOf(w, sv.c), "no unlock of the ledger lock between the checkpoint write and the end of the truncation", fmt.Sprintf("%d unlock calls reachable after the checkpoint write", unlocks))
 	}
 }
